@@ -769,6 +769,38 @@ def neighborlist(ctx):
     ctx.ob('NEIGHBORLIST', loc + '.build', 'the system, the cutoff and the storage-size parameters are forwarded to the builder', bool(okb), str(seen), node=b)
     ctx.ob('NEIGHBORLIST', loc + '.__getitem__', 'after build(): coord is column 0 of the table, an atom\'s list is the next coord entries of its row (negative indices count from the end), the length is the number of atoms', bool(okv), det0,
            node=ctx.fn(NLP, 'NeighborList.__getitem__'), key='views')
+    # the entry point on System: builds with itself as the system, or loads a saved list (then nothing but the model is passed on: load() takes no system)
+    SYSF = 'atomman/core/System.py'
+    nfn = ctx.fn(SYSF, 'System.neighborlist')
+    initfn = ctx.fn(NLP, 'NeighborList.__init__')
+    for tag, kw in (('cutoff and storage sizes', dict(cutoff=sp.Rational(7, 2), initialsize=I0(5))), ('a saved list', dict(model='nlist.dat'))):
+        made_, loaded_, built_ = [], [], []
+        me_ = SymObj(None, {}, 'self')
+
+        def mknl(**k):
+            # the real constructor, with recording build() / load()
+            o_ = SymObj(cls0, {'build': lambda *a, **kk: built_.append((a, kk)), 'load': lambda *a, **kk: loaded_.append((a, kk))}, 'nl')
+            sub = SymEval(module_aliases(ctx.mod(NLP)))
+            live_ = [q for q in sub.run_fn(initfn, [o_], dict(k)) if q.done == 'return']
+            if len(live_) != 1:
+                raise WouldRaise('NeighborList(%s) is refused' % sorted(k))
+            made_.append(k)
+            return o_
+        evn = SymEval(module_aliases(ctx.mod(SYSF)))
+        evn.globals = {'NeighborList': mknl}
+        try:
+            live_n = [q for q in evn.run_fn(nfn, [me_], dict(kw)) if q.done == 'return']
+            why_n = ''
+        except WouldRaise as e:
+            live_n, why_n = [], str(e)[:200]
+        except (Opaque, TypeError) as e:
+            live_n, why_n = [], '%s: %s' % (type(e).__name__, str(e)[:200])
+        if 'model' in kw:
+            okn = len(live_n) == 1 and not built_ and len(loaded_) == 1 and (loaded_[0] == (('nlist.dat',), {}) or loaded_[0] == ((), {'model': 'nlist.dat'}))
+        else:
+            okn = len(live_n) == 1 and not loaded_ and len(built_) == 1 and ((len(built_[0][0]) >= 1 and built_[0][0][0] is me_) or built_[0][1].get('system') is me_)
+        ctx.ob('NEIGHBORLIST', SYSF + '::System.neighborlist', 'System.neighborlist with %s: %s' % (tag, 'the saved list is loaded (the model alone is handed on)' if 'model' in kw else 'a list is built for this very system with those settings'),
+               bool(okn), why_n or 'built %s, loaded %s' % (built_, loaded_), node=nfn, key='system entry ' + tag)
     # dump and load: the writer's text is parsed by the analyser, and fed back to the reader
     import numpy as np
     d = ctx.fn(NLP, 'NeighborList.dump')
